@@ -11,7 +11,7 @@ PLAN = dict(
          "batched library path on the same input, compares each output with the reference and decrypts the fused ciphertext again. "
          "stream: histories on ONE mode object, mode x direction x partition kind (unit-at-a-time, batch-boundary sizes +-1, random, "
          "random with empty calls, two calls, head/body/tail) x length list, output compared with the one-call reference after every "
-         "call, each call from its own guarded buffers (hi / lo / misaligned with another offset pair per call), alternately in place. setiv: histories on one CBC / BC / OFBNLF object with SetIV between segments of 1..40 blocks (fused and generic path; the caller's IV slice is overwritten after SetIV returned): every segment must equal the definition applied to that segment under the IV set last. Keys, IVs, data and cut points come from the case PRNG. "
+         "call, each call from its own guarded buffers (hi / lo / misaligned with another offset pair per call), alternately in place. setiv: histories on one CBC / BC / OFBNLF object with SetIV between segments of 1..40 blocks (fused and generic path; the caller's IV slice is overwritten after SetIV returned): every segment must equal the definition applied to that segment under the IV set last. short: calls every mode refuses (destination 1, 15, 16, 17, n/2, n bytes shorter than a source of n bytes, n over the bulk-loop phases; block modes also sources of 17..300 bytes that are not whole blocks) on the fused, generic and batched paths with the destination ending / starting at a guard page: whatever the call does, nothing outside the two slices may be touched. Keys, IVs, data and cut points come from the case PRNG. "
          "Non-trivial = non-empty message; distinct = distinct class keys (configuration | workload / mode / direction / "
          "[partition kind] / whole-block count bucket (0,1,2-3,4-7,8-15,16-31,32-63,64-65,long) / tail size len mod 16 / IV kind / "
          "alias mode / placement hi|lo|mis; plus mis / mode / direction / block bucket / src offset)",
@@ -22,6 +22,12 @@ PLAN = dict(
         J("c03.stream", configs=["purego"], variant="purego", shards=(2, 8), floor=20000),
         J("c03.setiv", configs=_ASM, variant="asm", shards=(1, 2), floor=100),
         J("c03.setiv", configs=["purego"], variant="purego", shards=(1, 2), floor=100),
+        # refused calls (destination shorter than the source, partial blocks for block modes): nothing outside the two slices
+        # may be touched whatever the call does (guard pages + canaries); the argument checks are all that keeps the
+        # assembly from overrunning
+        J("c03.short", configs=_ASM, variant="asm", shards=(1, 2), floor=5000),
+        J("c03.short", configs=["purego"], variant="purego", shards=(1, 2), floor=5000),
+        J("c03.short", configs=["ia32"], variant="ia32", shards=(1, 2), floor=5000),
         # 32-bit build of the generic code (GOARCH=386)
         J("c03.oneshot", configs=["ia32"], variant="ia32", shards=(2, 16), floor=100000),
         J("c03.stream", configs=["ia32"], variant="ia32", shards=(2, 8), floor=20000),
@@ -47,7 +53,8 @@ CLAIM = dict(
          "calls, and call partitions on one mode object are executed from guard-page buffers on three library code paths (fused "
          "assembly, generic composition, batched composition) in seven dispatch configurations (AVX2, AVX, SSE, single-block AES-NI, "
          "AES-NI without PCLMULQDQ, table-driven Go with cpu.aes=off, purego) and compared byte for byte with independent textbook definitions; the library's "
-         "decryption is applied to its own ciphertext; faults, canary changes and child death are violations. Held on the cases "
+         "decryption is applied to its own ciphertext; calls the modes refuse (short destination, partial blocks) are made from guard-page "
+         "buffers as well and must not reach outside the two slices; faults, canary changes and child death are violations. Held on the cases "
          "executed; not a proof.",
     design_ref="DESIGN.md 6 (C03)",
     note="trusted: harness/ref/modes, harness/ref/sm4, Go runtime, kernel page protection; only dst[:len(src)] is specified "
